@@ -120,10 +120,12 @@ func VerifH_conc_requests() {
 	bytesPool.Put(&seed)
 	payloads := [2][]byte{[]byte("AAAAAAAAAAAA"), []byte("bb")}
 	var kinds [2]int
-	var ws [2]*fakeRW
-	var rs [2]*http.Request
 	for i := 0; i < 2; i++ {
 		kinds[i] = vfChoice(4)
+	}
+	// compressed calls are paired with gRPC calls only (compressed or not): they share the gRPC pools
+	vfAssume(!((kinds[0] == 3 && (kinds[1] == 0 || kinds[1] == 2)) || (kinds[1] == 3 && (kinds[0] == 0 || kinds[0] == 2))))
+	build := func(i int) *http.Request {
 		p := payloads[i]
 		frame := append([]byte{0, 0, 0, 0, byte(len(p))}, p...)
 		switch kinds[i] {
@@ -131,41 +133,25 @@ func VerifH_conc_requests() {
 			// gRPC with per-message compression: the decompression buffer is pooled as well
 			zp := append([]byte("Z:"), p...)
 			zframe := append([]byte{1, 0, 0, 0, byte(len(zp))}, zp...)
-			rs[i] = &http.Request{Method: "POST", URL: &url.URL{Path: "/vf.S/M0"},
+			return &http.Request{Method: "POST", URL: &url.URL{Path: "/vf.S/M0"},
 				Header: http.Header{"Content-Type": []string{"application/grpc+pure"}, "Te": []string{"trailers"}, "Grpc-Encoding": []string{"zz"}},
 				Body:   vfNopCloser{&vfYieldReader{vfWholeReader{data: zframe}}}, ContentLength: -1, ProtoMajor: 2}
 		case 0:
-			rs[i] = &http.Request{Method: "POST", URL: &url.URL{Path: "/aa/zz"},
+			return &http.Request{Method: "POST", URL: &url.URL{Path: "/aa/zz"},
 				Header: http.Header{"Content-Type": []string{"application/x"}, "Accept": []string{"application/x"}},
 				Body:   vfNopCloser{&vfYieldReader{vfWholeReader{data: p}}}, ContentLength: int64(len(p)), ProtoMajor: 1, ProtoMinor: 1}
 		case 1:
-			rs[i] = &http.Request{Method: "POST", URL: &url.URL{Path: "/vf.S/M0"},
+			return &http.Request{Method: "POST", URL: &url.URL{Path: "/vf.S/M0"},
 				Header: http.Header{"Content-Type": []string{"application/grpc+pure"}, "Te": []string{"trailers"}},
 				Body:   vfNopCloser{&vfYieldReader{vfWholeReader{data: frame}}}, ContentLength: -1, ProtoMajor: 2}
-		default:
-			text := []byte(base64.StdEncoding.EncodeToString(frame))
-			rs[i] = &http.Request{Method: "POST", URL: &url.URL{Path: "/vf.S/M0"},
-				Header: http.Header{"Content-Type": []string{"application/grpc-web-text+pure"}},
-				Body:   vfNopCloser{&vfYieldReader{vfWholeReader{data: text}}}, ContentLength: int64(len(text)), ProtoMajor: 1, ProtoMinor: 1}
 		}
-		ws[i] = newFakeRW()
+		text := []byte(base64.StdEncoding.EncodeToString(frame))
+		return &http.Request{Method: "POST", URL: &url.URL{Path: "/vf.S/M0"},
+			Header: http.Header{"Content-Type": []string{"application/grpc-web-text+pure"}},
+			Body:   vfNopCloser{&vfYieldReader{vfWholeReader{data: text}}}, ContentLength: int64(len(text)), ProtoMajor: 1, ProtoMinor: 1}
 	}
-	// compressed calls are paired with gRPC calls only (compressed or not): they share the gRPC pools
-	vfAssume(!((kinds[0] == 3 && (kinds[1] == 0 || kinds[1] == 2)) || (kinds[1] == 3 && (kinds[0] == 0 || kinds[0] == 2))))
-	var wg sync.WaitGroup
-	for i := 0; i < 2; i++ {
-		i := i
-		wg.Add(1)
-		go func() {
-			defer wg.Done()
-			mux.ServeHTTP(vfYieldRW{ws[i]}, rs[i])
-			ws[i].finish()
-		}()
-	}
-	wg.Wait()
-	for i := 0; i < 2; i++ {
+	check := func(i int, w *fakeRW) {
 		want := append([]byte("R:"), payloads[i]...)
-		w := ws[i]
 		switch kinds[i] {
 		case 3:
 			plain := append([]byte{0, 0, 0, 0, byte(len(want))}, want...)
@@ -185,6 +171,36 @@ func VerifH_conc_requests() {
 			n := len(want)
 			vfCheck(derr == nil && len(dec) >= 5+n && dec[0] == 0 && int(dec[4]) == n && vfBytesEq(dec[5:5+n], want), "a gRPC-web response is not the reply to its own request (bytes of a concurrent request leaked in)")
 			vfCover("grpc-web-text")
+		}
+	}
+	// Under the engine: the two requests, every schedule within the bound. Natively the schedule is
+	// Go's and sync.Pool is per-P, so a replay is a stress run: several copies of the pair in flight,
+	// repeated (what makes a pooled buffer change hands between requests observable).
+	reps, width := 1, 1
+	if !vfSymbolic() {
+		reps, width = 40, 6
+	}
+	for rep := 0; rep < reps; rep++ {
+		n := 2 * width
+		ws := make([]*fakeRW, n)
+		rs := make([]*http.Request, n)
+		for k := 0; k < n; k++ {
+			ws[k] = newFakeRW()
+			rs[k] = build(k % 2)
+		}
+		var wg sync.WaitGroup
+		for k := 0; k < n; k++ {
+			k := k
+			wg.Add(1)
+			go func() {
+				defer wg.Done()
+				mux.ServeHTTP(vfYieldRW{ws[k]}, rs[k])
+				ws[k].finish()
+			}()
+		}
+		wg.Wait()
+		for k := 0; k < n; k++ {
+			check(k%2, ws[k])
 		}
 	}
 }
